@@ -163,7 +163,21 @@ def run(ctx: Ctx):
     ctx.floor("existing-bin choices", len(fits), 2)
     for f_ in fits:
         at = gv.guard_atoms(cfg.node_of(f_), stable_only=False)
-        ctx.ob("C16-O3", "R14 GATE", b, "an existing bin is chosen only if the item fits its remaining capacity", atom_of("size <= remaining") in at, f"{sorted(at)[:6]}", node=f_)
+        ctx.ob("C16-O3", "R14 GATE", b, "an existing bin is chosen only if the item fits its remaining capacity (up to the rounding allowance)", atom_of("size <= remaining + tol") in at or atom_of("size <= remaining") in at, f"{sorted(at)[:6]}", node=f_)
+    # the rounding allowance: zero for integral data, otherwise a constant no larger than 1e-9 times the capacity, written once
+    tols = [n for n in own_nodes(b.node) if isinstance(n, (ast.Assign, ast.AugAssign)) and ast.unparse(n.targets[0] if isinstance(n, ast.Assign) else n.target) == "tol"]
+    okt = len(tols) == 1 and isinstance(tols[0], ast.Assign) and isinstance(tols[0].value, ast.IfExp)
+    if okt:
+        v_ = tols[0].value
+        zero_arm, scaled = (v_.body, v_.orelse)
+        okt = ast.unparse(zero_arm) in ("0.0", "0") and isinstance(scaled, ast.BinOp) and isinstance(scaled.op, ast.Mult)
+        if okt:
+            consts = [x.value for x in (scaled.left, scaled.right) if isinstance(x, ast.Constant) and isinstance(x.value, (int, float))]
+            others = [ast.unparse(x) for x in (scaled.left, scaled.right) if not isinstance(x, ast.Constant)]
+            okt = len(consts) == 1 and 0 < consts[0] <= 1e-9 and others == ["bin_capacity"] and ast.unparse(v_.test) == "integral"
+    integ = [n for n in own_nodes(b.node) if isinstance(n, ast.Assign) and ast.unparse(n.targets[0]) == "integral"]
+    okt = okt and len(integ) == 1 and ast.unparse(integ[0].value) == "float(bin_capacity).is_integer() and all((float(size).is_integer() for size in item_sizes))"
+    ctx.ob("C16-O3", "R14 GATE", b, "the rounding allowance of the fit tests is 0 for integral data and a constant of at most 1e-9 of the capacity otherwise", okt, "an allowance that grows with the data (or applies to integers) lets an item into a bin it does not fit: for large capacities the overfill exceeds a unit", node=tols[0] if tols else b.node)
     # the variant flags are read from the *normalised* algorithm name (lower case, `_` -> `-`)
     tb_ = ast.unparse(b.node)
     norm = [n for n in own_nodes(b.node) if isinstance(n, ast.Assign) and ast.unparse(n.targets[0]) == "algo" and "algorithm" in names_in(n.value)]
@@ -174,7 +188,7 @@ def run(ctx: Ctx):
 
     ctx.step(_need, "C16-O3", "R16 PAIRED-EFFECTS", b, "an item that fits no open bin opens a new one, whose index it takes; every item is then recorded in its bin with the bin's remaining capacity lowered", ["if best_bin == -1:\n            best_bin = len(bins)\n            bins.append((bin_capacity, []))", "remaining, items = bins[best_bin]\n        items.append(item_idx)\n        bins[best_bin] = (remaining - size, items)\n        assignments[item_idx] = best_bin", "best_bin = -1"])
     ctx.step(_need, "C16-O3", "R16 PAIRED-EFFECTS", b, "zero-size items go to bin 0, which is opened if there is none", ["if size == 0:\n            if not bins:\n                bins.append((bin_capacity, []))\n            bins[0][1].append(item_idx)\n            assignments[item_idx] = 0\n            continue"])
-    ctx.step(_need, "C16-O3", "R21 search discipline", b, "best fit keeps the fitting bin with the least room, first fit stops at the first fitting bin", ["if use_best_fit:\n            best_remaining = float('inf')\n            for b, (remaining, _) in enumerate(bins):\n                if size <= remaining < best_remaining:\n                    best_remaining = remaining\n                    best_bin = b\n        else:\n            for b, (remaining, _) in enumerate(bins):\n                if size <= remaining:\n                    best_bin = b\n                    break"])
+    ctx.step(_need, "C16-O3", "R21 search discipline", b, "best fit keeps the fitting bin with the least room, first fit stops at the first fitting bin", ["if use_best_fit:\n            best_remaining = float('inf')\n            for b, (remaining, _) in enumerate(bins):\n                if size <= remaining + tol and remaining < best_remaining:\n                    best_remaining = remaining\n                    best_bin = b\n        else:\n            for b, (remaining, _) in enumerate(bins):\n                if size <= remaining + tol:\n                    best_bin = b\n                    break"])
     ctx.step(_need, "C16-O3", "R1 STATUS-GUARD", b, "inputs are validated: positive capacity, no item larger than a bin, no negative size, known algorithm name", ["check_positive(bin_capacity, name='bin_capacity')", "if size > bin_capacity:\n            raise ValueError", "if size < 0:\n            raise ValueError", "if algo not in ('first-fit', 'best-fit', 'ff', 'bf'):\n        raise ValueError", "if decreasing:\n        algo = algo.replace('-decreasing', '')", "use_best_fit = algo in ('best-fit', 'bf')"])
     # a new bin is opened only because no open bin has room: the scan over the open bins is skipped for no item
     scans = [n for n in ast.walk(lp) if isinstance(n, ast.For) and ast.unparse(n.iter) == "enumerate(bins)"]
@@ -261,7 +275,7 @@ def _v_bin_index_after(tree):
 
 def _v_bin_fit(tree):
     g = M.find_func(tree, "solve_bin_pack")
-    M.replace_expr(g, lambda e: M.src_is(e, "size <= remaining < best_remaining"), M.expr("remaining < best_remaining"))
+    M.replace_expr(g, lambda e: M.src_is(e, "size <= remaining + tol and remaining < best_remaining"), M.expr("remaining < best_remaining"))
 
 
 def _v_bin_optimal(tree):
@@ -305,7 +319,25 @@ def _v_weightless_items_presolved(tree):
     g.body[r[0] + 1 : r[0] + 1] = M.stmts("selected.extend([i for i in range(n) if int_weights[i] == 0 and values[i] > 0])\nselected.sort()")
 
 
+def _v_allowance_for_integers_too(tree):
+    g = M.find_func(tree, "solve_bin_pack")
+    M.replace_expr(g, lambda e: isinstance(e, ast.IfExp) and M.src_is(e.test, "integral"), M.expr("1e-12 * bin_capacity"))
+
+
+def _v_allowance_relative_1e6(tree):
+    g = M.find_func(tree, "solve_bin_pack")
+    M.replace_expr(g, lambda e: isinstance(e, ast.Constant) and e.value == 1e-12, M.expr("1e-06"))
+
+
+def _v_no_allowance(tree):
+    g = M.find_func(tree, "solve_bin_pack")
+    M.replace_expr(g, lambda e: isinstance(e, ast.IfExp) and M.src_is(e.test, "integral"), M.expr("0.0"))
+
+
 VARIANTS = [
+    M.Variant("rounding allowance applied to integral data as well (overfill of a unit from capacity 1e12)", BP, _v_allowance_for_integers_too, "C16-O3"),
+    M.Variant("rounding allowance of 1e-6 of the capacity", BP, _v_allowance_relative_1e6, "C16-O3"),
+    M.Variant("no rounding allowance: [0.3, 0.3, 0.3, 0.1] needs two bins of 1.0 (original defect)", BP, _v_no_allowance, "C16-O3"),
     M.Variant("weightless items settled outside the DP by the sign of the raw value (seed C16-O)", KN, _v_weightless_items_presolved, "C16-O2"),
 
     M.Variant("zero-capacity shortcut publishes OPTIMAL without looking at items (original defect)", KN, _v_zero_capacity_shortcut, "C16-O1"),
